@@ -65,11 +65,20 @@ def main():
                 r = tifa_analysis(seq['codes'][c])
                 lines = [x[2] for x in issues_of(r) if x[2] is not None]
                 obs.append([ids.setdefault(id(r), len(ids)), len(MAIN_REPORT.feedback) + len(MAIN_REPORT.ignored_feedback),
-                            max(lines) if lines else 0])
+                            max(lines) if lines else 0, issues_of(r), bool(r.success)])
             except BaseException as e:
                 err = type(e).__name__ + ': ' + str(e)[:100]
                 break
-        seqs.append({'obs': obs, 'err': err})
+        # every code of the sequence analysed alone, on a freshly contextualized report
+        alone = []
+        for code in seq['codes']:
+            try:
+                contextualize_report(code)
+                r = tifa_analysis()
+                alone.append([issues_of(r), bool(r.success)])
+            except BaseException as e:
+                alone.append(['raised ' + type(e).__name__, False])
+        seqs.append({'obs': obs, 'err': err, 'alone': alone})
     json.dump({'programs': progs, 'sequences': seqs}, open(sys.argv[1], 'w'))
 
 
